@@ -64,12 +64,12 @@ def gen_binding_call(rng, fun):
     npos = len(vis) if r < 0.4 else rng.randrange(0, len(vis) + 1) if r < 0.85 else len(vis) + rng.choice([1, 2])
     args = [gen_raw_arg(rng, ids) for _ in range(npos)]
     kw = []
-    names = [rc.camel(p[0]) for p in vis[npos:]] + [rc.camel(p[0]) for p in fun["kwonly"] if p[1] != ["H"]]
+    names = [rc.palias(p) for p in vis[npos:]] + [rc.palias(p) for p in fun["kwonly"] if p[1] != ["H"]]
     for n in names:
         if rng.random() < 0.7:
             kw.append([n, gen_raw_arg(rng, ids, False)])
     if rng.random() < 0.2:
-        n = rng.choice(["zz", "a", "x_y", "xY", "val", "val_", "b", "k"])
+        n = rng.choice(["zz", "a", "x_y", "xY", "val", "val_", "b", "k", "max_count", "maxCount", "lim", "opt_"])
         if n not in [k for k, _ in kw] and n not in rc.colliding_names([fun]):
             kw.append([n, gen_raw_arg(rng, ids, False)])
     return args, kw
@@ -84,7 +84,7 @@ def spellings(fun, assignment, extras):
         if extras and k < len(vis):
             continue
         prefix = [assignment[p[0]] if assignment[p[0]] is not None else ["skip"] for p in vis[:k]]
-        kw = [[rc.camel(p[0]), assignment[p[0]]] for p in vis[k:] + kwonly if assignment[p[0]] is not None]
+        kw = [[rc.palias(p), assignment[p[0]]] for p in vis[k:] + kwonly if assignment[p[0]] is not None]
         variants = [prefix + extras]
         if not extras:
             stripped = list(prefix)
@@ -158,10 +158,12 @@ def binding_ok(dobs):
 
 
 def check_aliases(run, fun, fd):
+    declared = {q[0]: q[3] for q in fun["pos"] + fun["kwonly"] if len(q) > 3 and q[3]}
     for key, p in fd.parameters.items():
-        if p.alias != rc.camel(p.name):
-            run.fail("violation", "a parameter's alias is not the convention-translated name",
-                     {"function": fun, "parameter": p.name, "alias": p.alias, "required": rc.camel(p.name)})
+        want = declared.get(p.name) or rc.camel(p.name)
+        if p.alias != want:
+            run.fail("violation", "a parameter's alias is neither the declared one nor the convention-translated name",
+                     {"function": fun, "parameter": p.name, "alias": p.alias, "required": want})
             return False
     return True
 
@@ -170,7 +172,7 @@ def correspondence(run):
     rng = run.rng
     ctx = rc.OrderedContext()
     cases, meta = [], []
-    shape0 = {"nvis": 2, "lazy": set(), "pstar": 0.3, "pkwonly": 0.4, "pss": 0.3, "kindw": [1, 0, 0], "pnokw": 0.0}
+    shape0 = {"nvis": 2, "lazy": set(), "pstar": 0.3, "pkwonly": 0.5, "pss": 0.3, "kindw": [1, 0, 0], "pnokw": 0.0}
     nfun = run.n(1500, 12000)
     corpus = load_corpus()
     for i in range(len(corpus) + nfun):
@@ -718,7 +720,8 @@ def replay(run, data):
         return norm(o1) == norm(o2)
     if "parameter" in d:
         fd = rc.make_function(d["function"])
-        return all(p.alias == rc.camel(p.name) for p in fd.parameters.values())
+        declared = {q[0]: q[3] for q in d["function"]["pos"] + d["function"]["kwonly"] if len(q) > 3 and q[3]}
+        return all(p.alias == (declared.get(p.name) or rc.camel(p.name)) for p in fd.parameters.values())
     if "fun" in d:
         fd = rc.make_function(d["fun"])
         mobs, dobs = run_binding(fd, rc.OrderedContext(), d["args"], d["kw"])
